@@ -385,6 +385,8 @@ func (host *vmContext) ExecuteOnDestContext(destination []byte, sender []byte, v
 		return nil, err
 	}
 
+	storageBeforeCall, accountsBeforeCall := host.snapshotBeforeCall()
+
 	err = host.Transfer(callInput.RecipientAddr, callInput.CallerAddr, callInput.CallValue, nil, 0)
 	if err != nil {
 		return nil, err
@@ -419,11 +421,53 @@ func (host *vmContext) ExecuteOnDestContext(destination []byte, sender []byte, v
 	} else {
 		// all changes must be deleted
 		host.outputAccounts = make(map[string]*vmcommon.OutputAccount)
+		host.restoreAfterFailedCall(currContext, storageBeforeCall, accountsBeforeCall)
 	}
 	vmOutput.ReturnCode = returnCode
 	vmOutput.ReturnMessage = host.returnMessage
 
 	return vmOutput, nil
+}
+
+// snapshotBeforeCall deep-copies the pending storage updates and output accounts, so that a failed
+// nested call can be undone completely (stored values are never mutated in place, so they are shared)
+func (host *vmContext) snapshotBeforeCall() (map[string]map[string][]byte, map[string]*vmcommon.OutputAccount) {
+	storage := make(map[string]map[string][]byte, len(host.storageUpdate))
+	for address, updates := range host.storageUpdate {
+		storage[address] = make(map[string][]byte, len(updates))
+		for key, value := range updates {
+			storage[address][key] = value
+		}
+	}
+	accounts := make(map[string]*vmcommon.OutputAccount, len(host.outputAccounts))
+	for address, account := range host.outputAccounts {
+		accountCopy := *account
+		if account.BalanceDelta != nil {
+			accountCopy.BalanceDelta = big.NewInt(0).Set(account.BalanceDelta)
+		}
+		accountCopy.OutputTransfers = append([]vmcommon.OutputTransfer(nil), account.OutputTransfers...)
+		accounts[address] = &accountCopy
+	}
+	return storage, accounts
+}
+
+// restoreAfterFailedCall puts back the storage updates and the caller's output accounts as they were before
+// the failed call and its value transfer; in place, because the maps are shared between nested contexts
+func (host *vmContext) restoreAfterFailedCall(
+	caller *vmContext, storage map[string]map[string][]byte, accounts map[string]*vmcommon.OutputAccount,
+) {
+	for address := range host.storageUpdate {
+		delete(host.storageUpdate, address)
+	}
+	for address, updates := range storage {
+		host.storageUpdate[address] = updates
+	}
+	for address := range caller.outputAccounts {
+		delete(caller.outputAccounts, address)
+	}
+	for address, account := range accounts {
+		caller.outputAccounts[address] = account
+	}
 }
 
 // Finish append the value to the final output
